@@ -1151,4 +1151,10 @@ def ext_attr(I, mod, name, node):
     h = I.ctx.ext_attr_hook(I, base, name)
     if h is not NotImplemented:
         return h
+    # an external function the contract declares as mocked (trace key "<module>.<function>", e.g. "xml.sax.parseString")
+    tr = (getattr(I.ctx.contract, "trace", None) or {})
+    for key in (f"{base}.{name}", f"{base.split('.')[-1]}.{name}"):
+        if key in tr:
+            return PBuiltin(name, (lambda k: lambda I2, *a, **kw: I2.ctx.record_external(
+                I2, k, name, {f"arg{i}": x for i, x in enumerate(a)}, tr[k]))(key))
     raise Unsupported(f"external {base}.{name} at line {_ln(node)}")
